@@ -3,6 +3,8 @@
  * (`+`, `div`, `compare`, ... => vm.c opcode fast paths + janet_binop_call + the it_s64/it_u64 methods).
  *
  * Line protocol (same as lean/Driver/C14.lean):
+ *   <op> <operand> [<operand> ...]  (variadic: the core function is applied to all operands)
+ *   m:<name> <operand> ...          method call `(:name a0 a1 ...)`
  *   <op> <operand> [<operand>]      op = + - * / div mod % band bor bxor blshift brshift brushift bnot
  *                                        < <= > >= = not= compare cmp int/s64 int/u64 int/to-number
  *   cmpsd <int64 decimal> <hex16>   compare_int64_double called directly
@@ -85,6 +87,8 @@ static void print_error(Janet e) {
     else if (!strncmp(m, "cannot convert", 14)) printf("err:tonum\n");
     else if (!strncmp(m, "expected int/u64 or int/s64", 27)) printf("err:tonumtype\n");
     else if (!strncmp(m, "compare method requires", 23)) printf("err:cmparg\n");
+    else if (!strncmp(m, "arity mismatch", 14)) printf("err:arity\n");
+    else if (!strncmp(m, "unknown method", 14)) printf("err:nomethod\n");
     else {
         printf("err:other:");
         for (const char *p = m; *p; p++) putchar(*p == ' ' || *p == '\n' ? '_' : *p);
@@ -92,8 +96,30 @@ static void print_error(Janet e) {
     }
 }
 
+static JanetFunction *lookup_fn_uncached(const char *name);
+static struct { char name[32]; JanetFunction *f; } fn_cache[128];
+static int fn_cache_n = 0;
 static JanetFunction *lookup_fn(const char *name) {
+    for (int i = 0; i < fn_cache_n; i++) if (!strcmp(fn_cache[i].name, name)) return fn_cache[i].f;
+    JanetFunction *f = lookup_fn_uncached(name);
+    if (f && fn_cache_n < 128 && strlen(name) < 32) {
+        janet_gcroot(janet_wrap_function(f));
+        strcpy(fn_cache[fn_cache_n].name, name);
+        fn_cache[fn_cache_n++].f = f;
+    }
+    return f;
+}
+
+static JanetFunction *lookup_fn_uncached(const char *name) {
     Janet out;
+    if (name[0] == 'm' && name[1] == ':') {
+        /* method call through a keyword: (:name a0 a1 ...) */
+        char src[256];
+        snprintf(src, sizeof src, "(do (def k (keyword \"%s\")) (fn [& xs] (k ;xs)))", name + 2);
+        Janet f;
+        if (janet_dostring(env, src, "harness", &f) == 0 && janet_checktype(f, JANET_FUNCTION)) return janet_unwrap_function(f);
+        return NULL;
+    }
     janet_resolve(env, janet_csymbol(name), &out);
     if (janet_checktype(out, JANET_FUNCTION)) return janet_unwrap_function(out);
     if (janet_checktype(out, JANET_CFUNCTION)) {
@@ -109,7 +135,7 @@ static JanetFunction *lookup_fn(const char *name) {
     return NULL;
 }
 
-#define MAXTOK 8
+#define MAXTOK 10
 int main(void) {
     janet_init();
     env = janet_core_env(NULL);
@@ -136,7 +162,7 @@ int main(void) {
             continue;
         }
         JanetFunction *f = NULL;
-        Janet argv[2]; int argc = 0;
+        Janet argv[MAXTOK]; int argc = 0;
         if (!strcmp(tok[0], "imm") && nt == 4) {
             char src[256];
             snprintf(src, sizeof src, "(fn [x] (%s x %s))", tok[1], tok[3]);
@@ -147,7 +173,7 @@ int main(void) {
             argc = 1;
         } else {
             f = lookup_fn(tok[0]);
-            if (!f || nt < 2 || nt > 3) { printf("bad-op\n"); continue; }
+            if (!f || nt < 2) { printf("bad-op\n"); continue; }
             int ok = 1;
             for (int i = 1; i < nt; i++) ok = ok && parse_operand(tok[i], &argv[argc++]);
             if (!ok) { printf("bad-op\n"); continue; }
